@@ -13,3 +13,7 @@ let desc = { fresh = pg_fresh; decode = pg_decode_into; serialize = Some pg_seri
   next = (fun _ l -> i (pg_next l)); render_panics = pg_render_panics; of_spec; junk_len = 16 }
 let run id ops out = run_generic desc id ops out
 let registered = Registry.register "Lasfpong" run
+let coq_layer (l : pong) = Printf.sprintf "(mkPg %s %s %s %s %s %s %s %s %s %s %s)" (coq_zlist l.pg_contents) (coq_zlist l.pg_payload) (coq_z l.pg_ent)
+  (coq_z l.pg_o0) (coq_z l.pg_o1) (coq_z l.pg_o2) (coq_z l.pg_o3) (coq_bool l.pg_ipmi) (coq_bool l.pg_asf1) (coq_bool l.pg_sec) (coq_bool l.pg_dash)
+let registered_coq = Registry.register_coq "Lasfpong" ("From GP Require Import Base LasfpongModel.\n",
+  Lsmallutil.to_coq_generic { Lsmallutil.cd = desc; coq_layer; g_dec = "pg_decode_into"; g_fresh = "pg_fresh"; g_ser = "pg_serialize"; g_rp = "pg_render_panics" })
